@@ -64,7 +64,8 @@ func wasiCall(mod api.Module, params []uint64, n int) bool {
 //@   modifies nothing
 //@ iface (m api.Memory) WriteUint32Le(offset, v uint32) bool
 //@   ensures r0 == (uint64(offset)+4 <= memBytes(m))
-//@   modifies nothing
+//@   ensures verif_ghost_int("w32Off") == int(offset) && verif_ghost_int("w32Val") == int(v)
+//@   modifies ghost("w32Off"), ghost("w32Val")
 //@ iface (m api.Memory) WriteUint64Le(offset uint32, v uint64) bool
 //@   ensures r0 == (uint64(offset)+8 <= memBytes(m))
 //@   ensures verif_ghost_int("w64Off") == int(offset) && verif_ghost_int("w64Val") == int(v)
@@ -335,6 +336,30 @@ func gi(n string) int { return verif_ghost_int(n) }
 //@ case set-size fdFilestatSetSizeFn(ctx context.Context, mod api.Module, params []uint64) experimentalsys.Errno
 //@   requires wasiCall(mod, params, 2)
 //@   ensures[truncates-to-exactly-that-size] r0 == 0 ==> gi("truncCalls") == old(gi("truncCalls")) + 1 && gi("truncSize") == int(int64(params[1]))
+//@   nosafety
+
+// fd_readdir: "more entries are available when result.bufused == buf_len": whenever the last entry had to
+// be truncated (or dropped for lack of room) the function reports buf_len, otherwise exactly the bytes
+// of the whole entries written. maxDirents: what is written never exceeds the buffer; a truncated entry
+// contributes at most its 24-byte header.
+//@ func maxDirents(dirents []experimentalsys.Dirent, bufLen uint32) (bufToWrite uint32, direntCount int, truncatedLen uint32)
+//@   ensures[within-the-buffer] bufToWrite <= bufLen && truncatedLen <= bufToWrite && truncatedLen <= 24
+//@   ensures[entries-counted] 0 <= direntCount && direntCount <= len(dirents) && (truncatedLen > 0 ==> direntCount >= 1)
+//@   may-panic true
+//@   records mdToWrite = int(bufToWrite)
+//@   records mdTrunc = int(truncatedLen)
+//@   modifies ghost("mdToWrite"), ghost("mdTrunc")
+//@   loop 0 (rangeindex int, lenRemaining uint32)
+//@     invariant -1 <= rangeindex && rangeindex < len(dirents) && 0 <= direntCount && direntCount <= rangeindex+1 && uint64(bufToWrite)+uint64(lenRemaining) == uint64(bufLen) && truncatedLen == 0
+//@   nosafety
+
+//@ func writeDirents(buf []byte, dirents []experimentalsys.Dirent, d_next uint64, direntCount int, truncatedLen uint32)
+//@   trusted
+//@   modifies elems(buf)
+
+//@ case bufused fdReaddirFn(ctx context.Context, mod api.Module, params []uint64) experimentalsys.Errno
+//@   requires wasiCall(mod, params, 5)
+//@   ensures[more-entries-are-signalled-by-a-full-buffer] r0 == 0 ==> gi("w32Off") == int(uint32(params[4])) && (gi("mdTrunc") > 0 ==> gi("w32Val") == int(uint32(params[2]))) && (gi("mdTrunc") == 0 ==> gi("w32Val") == gi("mdToWrite"))
 //@   nosafety
 
 // Positional I/O: each chunk of an fd_pread / fd_pwrite vector is transferred at the cursor, which then
